@@ -1,5 +1,7 @@
 """C10 — conversion cache is coherent, converts once, and is thread-safe.
 
+(1b) converted_call histories (function, options, context status) against the real call
+    wrapper with its allow-list cache: each request must run what a fresh state would run.
 (1) Histories (unit harness, solver-exhausted): every sequence of H requests
     (function, options) over the pool of vf/harness/c10.py against ONE real
     transpiler instance; each returned function must behave and read like a
@@ -32,6 +34,10 @@ def run(tier):
   unit.run_units(R, 'vf.harness.c10', names, pct, 120.0,
                  title='cache returned a function that is not a fresh conversion of the request / converted twice',
                  hard_timeout=int(pct * 1.5))
+  unit.run_units(R, 'vf.harness.c10', c10.CALL_HISTORY3, pct, 120.0,
+                 title='converted_call served a request differently from a fresh conversion in the same context '
+                       '(state left behind by an earlier request)',
+                 hard_timeout=int(pct * 1.5))
   from vf import bmc_cache
   bm = bmc_cache.run(R, tier)
   n_hist = 400 + 20 * 400 + (10 * 8000 if tier != 'quick' else 0)
@@ -39,6 +45,8 @@ def run(tier):
       'history_harnesses': len(names),
       'history_bound': 'H<=%d requests over 5 functions x 4 option sets (every history enumerated by the solver)' % H,
       'histories': n_hist,
+      'converted_call_histories': '3 requests over 2 functions sharing code x 2 option sets x 3 context statuses '
+                                  '(12 harnesses x 144 continuations), real api._TRANSPILER and conversion._ALLOWLIST_CACHE',
       'reachability_twin': twin.get('verdict'),
       'outside_bounds': 'weak-reference collection concurrent with a lookup; more than 3 threads; preemption '
                         'inside a single C-level dict operation; converted_call allow-list cache under threads',
